@@ -101,6 +101,9 @@ enum Defect {
     LeafNoKu,
     LeafEkuNoServer,
     LeafEkuNoClient,
+    /// the leaf's extended key usage lacks a mandatory purpose and lists other entries instead:
+    /// 0 = [server, server], 1 = [client, client], 2 = [client, code signing, client], 3 = [server, OCSP, e-mail]
+    LeafEkuLacksOne(u8),
     LeafNoEku,
     CaNotCa(Which),
     CaNoBasic(Which),
@@ -204,7 +207,7 @@ fn must_reject(b: &Base, d: Defect, e: Entry) -> Option<bool> {
             // without a reliable clock only the not-after bound can be judged (Matter: last known good time)
             b.clock_reliable
         }
-        LeafIsCa | LeafNoBasic | LeafKuNoDigSig | LeafNoKu | LeafEkuNoServer | LeafEkuNoClient | LeafNoEku => true,
+        LeafIsCa | LeafNoBasic | LeafKuNoDigSig | LeafNoKu | LeafEkuNoServer | LeafEkuNoClient | LeafEkuLacksOne(_) | LeafNoEku => true,
         CaNotCa(w) | CaNoBasic(w) | CaKuNoCertSign(w) | CaNoKu(w) => {
             if !has(w) {
                 return Option::None;
@@ -436,6 +439,12 @@ fn build_chain<C: Crypto>(c: &C, k: &Keys, leaf: &KeyPair, node_id: u64, b: &Bas
         LeafNoKu => nc.key_usage = Option::None,
         LeafEkuNoServer => nc.eku = Some(vec![2]),
         LeafEkuNoClient => nc.eku = Some(vec![1]),
+        LeafEkuLacksOne(k) => nc.eku = Some(match k {
+            0 => vec![1, 1],
+            1 => vec![2, 2],
+            2 => vec![2, 3, 2],
+            _ => vec![1, 6, 4],
+        }),
         LeafNoEku => nc.eku = Option::None,
         NocNoNodeId => nc.subject.retain(|a| a.0 != certw::DN_NODE_ID),
         NocNoFabricId => nc.subject.retain(|a| a.0 != certw::DN_FABRIC_ID),
@@ -765,7 +774,7 @@ fn defects(all_sig_bits: bool) -> Vec<Defect> {
             v.extend([Skid(w), CaNotCa(w), CaNoBasic(w), CaKuNoCertSign(w), CaNoKu(w)]);
         }
     }
-    v.extend([IssuerKind, LeafIsCa, LeafNoBasic, LeafKuNoDigSig, LeafNoKu, LeafEkuNoServer, LeafEkuNoClient, LeafNoEku, RootPathLen0, NocNoNodeId, NocNoFabricId, NocFabricOther, IcacFabricOther, RcacFabricOther, Swapped, LeafAsAuthority, AuthorityAsLeaf, IcacIsRoot, WrongRoot, RootSelfSigBroken, NocKeyNotCsr, FabricExists]);
+    v.extend([IssuerKind, LeafIsCa, LeafNoBasic, LeafKuNoDigSig, LeafNoKu, LeafEkuNoServer, LeafEkuNoClient, LeafEkuLacksOne(0), LeafEkuLacksOne(1), LeafEkuLacksOne(2), LeafEkuLacksOne(3), LeafNoEku, RootPathLen0, NocNoNodeId, NocNoFabricId, NocFabricOther, IcacFabricOther, RcacFabricOther, Swapped, LeafAsAuthority, AuthorityAsLeaf, IcacIsRoot, WrongRoot, RootSelfSigBroken, NocKeyNotCsr, FabricExists]);
     v
 }
 
@@ -923,7 +932,7 @@ pub fn run_check(ctx: &Ctx) -> i32 {
         .set("samples", json!([label(&all_bases[0], Defect::None, Entry::Verifier), label(&all_bases[1], Defect::IssuerCaId(Which::Noc), Entry::CaseInitiatorPresents)]));
     ev.assume("the to-be-signed encoding is the repo's own Matter-TLV -> X.509 conversion (the same one the verifier uses); a defect in that conversion common to signing and verifying is C17's subject");
     ev.assume("name attributes are Matter-specific ids only (no text attributes); one defect per chain");
-    if accepted_n == 0 || rejected_n == 0 || reject_codes.len() < 3 {
+    if report.violations.is_empty() && (accepted_n == 0 || rejected_n == 0 || reject_codes.len() < 3) {
         eprintln!("MACHINERY: vacuous C19 run (accepted {}, rejected {})", accepted_n, rejected_n);
         return 2;
     }
